@@ -309,6 +309,9 @@ func (f *fileBackedFile) VirtualAllocate(ctx context.Context, off, size uint64) 
 	f.lockMutatingData()
 	defer f.lock.Unlock()
 
+	if f.referenceCount == 0 {
+		return StatusErrStale
+	}
 	if end := uint64(off) + uint64(size); f.size < end {
 		if s := f.virtualTruncate(end); s != StatusOK {
 			return s
@@ -392,6 +395,10 @@ func (f *fileBackedFile) VirtualApply(data any) bool {
 
 func (f *fileBackedFile) VirtualSeek(ctx context.Context, offset uint64, regionType filesystem.RegionType) (*uint64, Status) {
 	f.lock.Lock()
+	if f.referenceCount == 0 {
+		f.lock.Unlock()
+		return nil, StatusErrStale
+	}
 	if offset >= f.size {
 		f.lock.Unlock()
 		return nil, StatusErrNXIO
@@ -441,6 +448,9 @@ func (f *fileBackedFile) VirtualRead(ctx context.Context, buf []byte, off uint64
 	f.lock.Lock()
 	defer f.lock.Unlock()
 
+	if f.referenceCount == 0 {
+		return 0, false, StatusErrStale
+	}
 	buf, eof := BoundReadToFileSize(buf, off, f.size)
 	if len(buf) > 0 {
 		if n, err := f.file.ReadAt(buf, int64(off)); n != len(buf) {
@@ -496,6 +506,9 @@ func (f *fileBackedFile) VirtualSetAttributes(ctx context.Context, in *Attribute
 	}
 	defer f.lock.Unlock()
 
+	if f.referenceCount == 0 {
+		return StatusErrStale
+	}
 	if hasSizeBytes {
 		if s := f.virtualTruncate(sizeBytes); s != StatusOK {
 			return s
@@ -515,6 +528,9 @@ func (f *fileBackedFile) VirtualWrite(ctx context.Context, buf []byte, offset ui
 	f.lockMutatingData()
 	defer f.lock.Unlock()
 
+	if f.referenceCount == 0 {
+		return 0, StatusErrStale
+	}
 	nWritten, err := f.file.WriteAt(buf, int64(offset))
 	if nWritten > 0 {
 		f.cachedDigest = digest.BadDigest
